@@ -956,6 +956,8 @@ def run(ctx, pid):
         ctx.count("assumption_%s_instances" % k, sum(ASSUME[k]))
     special_inputs(ctx, pid)
     history_checks(ctx, pid)
+    generator_checks(ctx, pid)
+    layout_checks(ctx, pid)
     if pid == "C02":
         wide_control_checks(ctx)
     gcases = general_cases(ctx, pid) if pid in ("C01", "C16") else []
@@ -1173,6 +1175,582 @@ def history_checks(ctx, pid):
         ctx.count("history_" + inp["spec"]["k"])
         check_history(ctx, pid, inp)
         ctx.nontriv(("history", repr(inp)[:2000]))
+
+
+# =============================================================================== generators: one operator, many representations
+# Time evolution / block encoding are defined by the OPERATOR H, not by the object that stores it.  The same Hermitian H can be
+# handed over as: a PauliString (q in {0,2}); a WeightedPauliString with even q and real weight, or with ODD q and a compensating
+# imaginary weight (that is what PauliString.__matmul__ produces: X.Y = iZ); a PauliOperator listing it once, split, mixed, merged
+# by add_pauli_string, padded with zero-weight or cancelling strings; a model Hamiltonian or its as_pauli_operator() /
+# as_field_operator(); a FieldOperator with one term, split terms, non-Hermitian halves, anti-normal order + constant, A + A^dagger.
+# Every representation must give the same gate matrix, namely the one built from the numpy definition of H (eigh-based exp).
+_PAULI1 = {"I": np.eye(2, dtype=complex), "X": np.array([[0, 1], [1, 0]], dtype=complex),
+           "Y": np.array([[0, -1j], [1j, 0]], dtype=complex), "Z": np.array([[1, 0], [0, -1]], dtype=complex)}
+_QPHASE = {0: 1.0, 1: -1j, 2: -1.0, 3: 1j}
+_QPREFIX = {0: "", 1: "-i", 2: "-", 3: "i"}
+
+
+def letters_matrix(s):
+    M = np.ones((1, 1), dtype=complex)
+    for ch in s:
+        M = np.kron(M, _PAULI1[ch])
+    return M
+
+
+def cxw(w):
+    return complex(w[0], w[1])
+
+
+def make_weight(w, wt):
+    """the weight object handed to WeightedPauliString: dtype / type dimension"""
+    c = cxw(w)
+    if wt == "int" and c.imag == 0 and c.real == int(c.real):
+        return int(c.real)
+    if wt == "float" and c.imag == 0:
+        return float(c.real)
+    if wt == "np":
+        return np.float64(c.real) if c.imag == 0 else np.complex128(c)
+    if wt == "negzero" and c.imag == 0:
+        return complex(c.real, -0.0)
+    if c.imag == 0 and wt != "complex":
+        return float(c.real)
+    return c
+
+
+def build_pstring(ps):
+    """ps = {"s": letters, "q": q, "via": "str" | "zxq" | "prod", ...} -> PauliString"""
+    from qib.operator import PauliString
+    via = ps.get("via", "str")
+    if via == "str":
+        return PauliString.from_string(_QPREFIX[ps["q"]] + ps["s"])
+    if via == "zxq":
+        z = [1 if ch in "YZ" else 0 for ch in ps["s"]]
+        x = [1 if ch in "XY" else 0 for ch in ps["s"]]
+        return PauliString(z, x, ps["q"] + (4 if ps.get("q_plus_4") else 0))
+    if via == "prod":          # product of two letter strings through PauliString.__matmul__ (phase decided by the library)
+        return PauliString.from_string(ps["a"]) @ PauliString.from_string(ps["b"])
+    raise ValueError(via)
+
+
+def pstring_reference(ps):
+    if ps.get("via") == "prod":
+        return letters_matrix(ps["a"]) @ letters_matrix(ps["b"])
+    return _QPHASE[ps["q"] % 4] * letters_matrix(ps["s"])
+
+
+def _chain_field(kind, n, pbc=False, layered=False):
+    import qib
+    pt = qib.field.ParticleType.FERMION if kind == "fermi" else qib.field.ParticleType.QUBIT
+    lat = qib.lattice.IntegerLattice((n,), pbc=pbc)
+    if layered:
+        lat = qib.lattice.LayeredLattice(lat, 2)
+    return qib.field.Field(pt, lat)
+
+
+def build_generator(rep):
+    """representation spec -> operator object acting on a field of its own"""
+    import qib
+    from qib.operator import (PauliString, WeightedPauliString, PauliOperator, FieldOperator, FieldOperatorTerm, IFODesc, IFOType,
+                              IsingHamiltonian, IsingConvention, HeisenbergHamiltonian, FermiHubbardHamiltonian,
+                              MolecularHamiltonian, MolecularHamiltonianSymmetry)
+    r = rep["r"]
+    if r == "pstring":
+        p = build_pstring(rep["p"])
+        return p.set_field(_chain_field("qubit", p.num_qubits))
+    if r == "wps":
+        p = build_pstring(rep["p"])
+        return WeightedPauliString(p, make_weight(rep["w"], rep.get("wt"))).set_field(_chain_field("qubit", p.num_qubits))
+    if r == "pop":
+        items = [WeightedPauliString(build_pstring(p), make_weight(w, rep.get("wt"))) for p, w in rep["items"]]
+        if rep.get("via") == "add":
+            op = PauliOperator()
+            for it in items:
+                op.add_pauli_string(it)
+        else:
+            op = PauliOperator(items)
+        return op.set_field(_chain_field("qubit", items[0].num_qubits))
+    if r in ("ising", "ising-pauli"):
+        f = _chain_field("qubit", rep["n"], rep.get("pbc", False))
+        o = IsingHamiltonian(f, rep["J"], rep["h"], rep["g"], IsingConvention[rep.get("conv", "ISING_ZZ")])
+        return o if r == "ising" else o.as_pauli_operator().set_field(f)
+    if r in ("heis", "heis-pauli"):
+        f = _chain_field("qubit", rep["n"], rep.get("pbc", False))
+        o = HeisenbergHamiltonian(f, rep["J"], rep["h"])
+        return o if r == "heis" else o.as_pauli_operator().set_field(f)
+    if r in ("fh", "fh-field"):
+        f = _chain_field("fermi", rep["n"], rep.get("pbc", False), layered=rep["spin"])
+        o = FermiHubbardHamiltonian(f, float(rep["t"]), float(rep["u"]), rep["spin"])
+        return o if r == "fh" else o.as_field_operator()
+    if r in ("mol", "mol-field"):
+        n = rep["n"]
+        tk = np.array([[cxw(w) for w in row] for row in rep["tkin"]])
+        vi = np.array(rep["vint"], dtype=float).reshape((n, n, n, n))
+        symm = MolecularHamiltonianSymmetry.HERMITIAN if rep.get("herm", True) else MolecularHamiltonianSymmetry(0)
+        o = MolecularHamiltonian(_chain_field("fermi", n), rep["c"], tk, vi, symm)
+        return o if r == "mol" else o.as_field_operator()
+    if r == "field":
+        from checks import C10
+        L, terms = C10.undesc_terms(rep["fterms"])
+        W = C10.World()
+        ops = [W.op(L, [t]) for t in terms]
+        how = rep.get("how", "terms")
+        if how == "terms":
+            return W.op(L, terms)
+        if how == "sum":                    # FieldOperator.__add__ / sum()
+            return sum(ops)
+        if how == "plus-adjoint":           # A + A^dagger from a (non-Hermitian) A
+            A = W.op(L, terms)
+            return A + A.adjoint()
+        raise ValueError(how)
+    raise ValueError(r)
+
+
+def href_matrix(href):
+    """numpy definition of H, independent of the library: Pauli sums by kron, fermionic sums by Jordan-Wigner ladder products"""
+    if href["kind"] == "pauli":
+        M = np.zeros((2 ** href["n"],) * 2, dtype=complex)
+        for s, w in href["terms"]:
+            M = M + cxw(w) * letters_matrix(s)
+        return M
+    if href["kind"] == "fermi":
+        from checks import C10
+        L, terms = C10.undesc_terms(href["fterms"])
+        return C10.ref_op_matrix(L, terms)
+    raise ValueError(href["kind"])
+
+
+def check_generator_rep(ctx, pid, inp):
+    """inp = {"family", "rep", "href", "gates": [{"k": "tevo", "t"} | {"k": "benc", "method"}]}: the gates over this
+    representation of H, bare and inside controlled / multiplexed wrappers, against the numpy definition."""
+    import qib
+    from qib.operator import BlockEncodingMethod
+    rep, fam = inp["rep"], inp["family"]
+    tol = 1e-8
+    try:
+        Href = href_matrix(inp["href"])
+        h = build_generator(rep)
+        cls = type(h).__name__
+        H = dense(h.as_matrix())
+    except Exception as e:
+        ctx.fail("generator:construction-raises:" + rep["r"], inp, "an operator", repr(e)[:200])
+        return None
+    ctx.count("generator_rep_" + rep["r"])
+    if maxerr(H, H.conj().T) > 1e-12:
+        ctx.count("generator_rep_not_hermitian_skipped")
+        return None
+    if maxerr(H, Href) > 1e-11:
+        # the operator class misreports its own matrix: another property's business; C02 ("exp(-itH) for the H denoted") reports it
+        ctx.count("generator_rep_matrix_differs_from_definition")
+        if pid == "C02":
+            ctx.fail("generator:operator-matrix-differs-from-numpy-definition:" + cls, inp, "numpy definition of H", maxerr(H, Href))
+        Href = H
+    for gs in inp["gates"]:
+        kind = gs["k"]
+        tag = "%s:%s" % (kind, cls)
+        try:
+            if kind == "tevo":
+                g = qib.TimeEvolutionGate(h, gs["t"])
+                R = history_reference("tevo", None, Href, float(gs["t"]))
+            else:
+                g = qib.BlockEncodingGate(h, BlockEncodingMethod[gs["method"]])
+                R = history_reference("benc", gs["method"], Href, 0.0)
+            I, Z = np.eye(R.shape[0]), np.zeros_like(R)
+            objs = [("bare", g, R)]
+            if gs.get("wrap", True):
+                objs += [("controlled-1", qib.ControlledGate(g, 1), np.block([[I, Z], [Z, R]]))]
+                if gs.get("wrap", True) != "some":
+                    objs += [("controlled-0", qib.ControlledGate(g, 1, [0]), np.block([[R, Z], [Z, I]]))]
+                objs += [("multiplexed", qib.MultiplexedGate([g, g.inverse()], 1), np.block([[R, Z], [Z, R.conj().T]])),
+                         ("inverse", g.inverse(), R.conj().T)]
+        except Exception as e:
+            ctx.fail("generator:%s:gate-construction-raises" % tag, dict(inp, gate=gs), "a gate", repr(e)[:200])
+            continue
+        for name, o, W in objs:
+            where = dict(inp, gate=gs, object=name)
+            try:
+                U = dense(o.as_matrix())
+            except Exception as e:
+                ctx.fail("generator:%s:as_matrix-raises" % tag, where, "a matrix", repr(e)[:200])
+                continue
+            ctx.count("generator_gate_" + kind)
+            if pid == "C01":
+                if U.shape != (2 ** o.num_wires,) * 2:
+                    ctx.fail("generator:%s:shape-not-2^num_wires" % tag, where, (2 ** o.num_wires,) * 2, U.shape)
+                elif maxerr(U @ U.conj().T, np.eye(U.shape[0])) > tol or maxerr(U.conj().T @ U, np.eye(U.shape[0])) > tol:
+                    ctx.fail("generator:%s:not-unitary" % tag, where, "U U^dagger = I", maxerr(U @ U.conj().T, np.eye(U.shape[0])))
+                if not o.is_unitary():
+                    ctx.fail("generator:%s:is_unitary-false" % tag, where, True, False)
+            if pid == "C02" and name != "inverse" and maxerr(U, W) > tol:
+                ctx.fail("generator:%s:matrix-differs-from-definition-over-this-representation" % tag, where,
+                         "exp(-i t H) (eigh of the numpy definition of H)" if kind == "tevo" else "block encoding of the numpy definition of H",
+                         maxerr(U, W))
+            if pid == "C03":
+                try:
+                    Ui = dense(o.inverse().as_matrix())
+                    if maxerr(Ui @ U, np.eye(U.shape[0])) > tol or maxerr(U @ Ui, np.eye(U.shape[0])) > tol:
+                        ctx.fail("generator:%s:inverse-does-not-invert" % tag, where, "inverse() * gate = 1", maxerr(Ui @ U, np.eye(U.shape[0])))
+                    if name == "inverse" and maxerr(U, W) > tol:
+                        ctx.fail("generator:%s:inverse-is-not-the-adjoint-of-the-definition" % tag, where, "exp(+i t H)", maxerr(U, W))
+                except Exception as e:
+                    ctx.fail("generator:%s:inverse-raises" % tag, where, "a gate", repr(e)[:200])
+            if pid == "C16" and o.is_hermitian() and maxerr(U, U.conj().T) > tol:
+                ctx.fail("generator:%s:claims-hermitian-but-matrix-is-not" % tag, where, "U = U^dagger", maxerr(U, U.conj().T))
+    return cls
+
+
+GEN_TIMES = [0.3, -1.1, 0.0, math.pi, 25.0, 2, 1e-9]
+
+
+def _wsplit(c):
+    return [float(np.real(c)), float(np.imag(c))]
+
+
+def single_string_reps(s, c, rng):
+    """all the ways to store  c * (letters s)  with real c: (-i)^q on the string, i^q on the weight"""
+    reps = []
+    for q in (0, 1, 2, 3):
+        w = c / _QPHASE[q]
+        for via in (("str", "zxq") if q in (0, 1) else ("str",)):
+            p = {"s": s, "q": q, "via": via}
+            if via == "zxq" and q == 1:
+                p["q_plus_4"] = True             # q given as 5: the constructor reduces it mod 4
+            reps.append({"r": "wps", "p": p, "w": _wsplit(w)})
+            reps.append({"r": "pop", "items": [[p, _wsplit(w)]]})
+    # weight types (int / numpy scalars / complex with zero or negative-zero imaginary part)
+    for wt in ("np", "complex", "negzero") + (("int",) if c == int(c) else ()):
+        reps.append({"r": "wps", "p": {"s": s, "q": 0}, "w": _wsplit(c), "wt": wt})
+        reps.append({"r": "wps", "p": {"s": s, "q": 3}, "w": _wsplit(c / 1j), "wt": "np"})
+    # as a product of two strings (phase chosen by __matmul__), weight compensates the phase found numerically
+    n = len(s)
+    nonid = [k for k, ch in enumerate(s) if ch != "I"]
+    prods = []
+    if nonid:
+        k = nonid[0]
+        two = {"X": ("Y", "Z"), "Y": ("Z", "X"), "Z": ("X", "Y")}[s[k]]     # Y.Z = iX, Z.X = iY, X.Y = iZ
+        a = "".join(two[0] if j == k else (s[j] if j < k else "I") for j in range(n))
+        b = "".join(two[1] if j == k else (s[j] if j > k else "I") for j in range(n))
+        prods.append((a, b))
+        prods.append((b, a))
+    if len(nonid) >= 2:
+        k = nonid[1]
+        prods.append(("".join(s[j] if j < k else "I" for j in range(n)), "".join(s[j] if j >= k else "I" for j in range(n))))
+    S = letters_matrix(s)
+    for a, b in prods:
+        Pm = letters_matrix(a) @ letters_matrix(b)
+        ph = Pm[np.nonzero(S)][0] / S[np.nonzero(S)][0]
+        assert maxerr(Pm, ph * S) == 0
+        p = {"via": "prod", "a": a, "b": b, "s": s}
+        reps.append({"r": "wps", "p": p, "w": _wsplit(c / ph)})
+        reps.append({"r": "pop", "items": [[p, _wsplit(c / ph)]], "via": "add"})
+    # operators: split, mixed representations of the two halves, merged by add_pauli_string, zero-weight and cancelling padding
+    other = "".join({"I": "Z", "X": "I", "Y": "X", "Z": "Y"}[ch] for ch in s)
+    a = round(rng.uniform(0.2, 0.9), 3)
+    P0, P1, P2, P3 = ({"s": s, "q": q} for q in (0, 1, 2, 3))
+    O0, O1, O2 = ({"s": other, "q": q} for q in (0, 1, 2))
+    reps.append({"r": "pop", "items": [[P0, _wsplit(c * a)], [P0, _wsplit(c * (1 - a))]]})
+    reps.append({"r": "pop", "items": [[P0, _wsplit(c * a)], [P0, _wsplit(c * (1 - a))]], "via": "add"})
+    reps.append({"r": "pop", "items": [[P0, _wsplit(c / 2)], [P1, _wsplit(c / 2 * 1j)]]})
+    reps.append({"r": "pop", "items": [[P3, _wsplit(c / 2 / 1j)], [P2, _wsplit(-c / 2)]], "via": "add"})
+    reps.append({"r": "pop", "items": [[P1, _wsplit(c * 1j)], [O0, [0.0, 0.0]]]})
+    reps.append({"r": "pop", "items": [[O0, [a, 0.0]], [P0, _wsplit(c)], [O2, [a, 0.0]]]})            # +a O - a O cancels
+    reps.append({"r": "pop", "items": [[O1, [0.0, a]], [P1, _wsplit(c * 1j)], [O0, [-a, 0.0]]]})      # (-i)(ia) O - a O cancels
+    reps.append({"r": "pop", "items": [[O0, [a, 0.0]], [P0, _wsplit(c)], [O0, [-a, 0.0]]], "via": "add"})   # merged to weight 0
+    if abs(c) == 1:
+        reps.append({"r": "pstring", "p": {"s": s, "q": 0 if c > 0 else 2}})
+        reps.append({"r": "pstring", "p": {"s": s, "q": 0 if c > 0 else 2, "via": "zxq"}})
+    return reps
+
+
+def pauli_sum_reps(terms, rng):
+    """H = sum c_k P_k (real c_k, distinct strings): plain, every string with odd q, mixed, reversed order, split"""
+    reps = []
+    plain = [[{"s": s, "q": 0}, _wsplit(c)] for s, c in terms]
+    odd = [[{"s": s, "q": 1 + 2 * (k % 2)}, _wsplit(c / _QPHASE[1 + 2 * (k % 2)])] for k, (s, c) in enumerate(terms)]
+    mixed = [plain[k] if k % 2 else odd[k] for k in range(len(terms))]
+    reps.append({"r": "pop", "items": plain})
+    reps.append({"r": "pop", "items": odd})
+    reps.append({"r": "pop", "items": mixed, "via": "add"})
+    reps.append({"r": "pop", "items": plain[::-1], "wt": "np"})
+    reps.append({"r": "pop", "items": [[p, [w[0] / 2, w[1] / 2]] for p, w in plain + odd]})
+    reps.append({"r": "pop", "items": [[p, [w[0] / 2, w[1] / 2]] for p, w in odd + plain], "via": "add"})
+    return reps
+
+
+def chain_pairs(n, pbc):
+    pairs = [(i, i + 1) for i in range(n - 1)]
+    if pbc and n >= 3:
+        pairs.append((0, n - 1))
+    return pairs
+
+
+def place(n, put):
+    s = ["I"] * n
+    for k, ch in put:
+        s[k] = ch
+    return "".join(s)
+
+
+def generator_families(ctx):
+    """list of (family name, href, [rep, ...], gates)"""
+    from checks import C10
+    rng = ctx.rng
+    fams = []
+    # ---- single strings c P: n = 1..3, c incl. +-1 (PauliString itself) ; the seed-like inputs first
+    singles = [("Z", 0.9), ("IZY", 0.9), ("ZZI", -0.5), ("XYZ", 1.0), ("YY", -1.0), ("XI", 2.0)]
+    for _ in range(6 if ctx.thorough else 1):
+        n = rng.randint(1, 3)
+        s = "".join(rng.choice("IXYZ") for _ in range(n))
+        if set(s) == {"I"}:
+            s = s[:-1] + "Y"
+        singles.append((s, round(rng.uniform(-1.5, 1.5), 3)))
+    for k, (s, c) in enumerate(singles):
+        href = {"kind": "pauli", "n": len(s), "terms": [[s, [c, 0.0]]]}
+        fams.append(("single:%s" % s, href, single_string_reps(s, c, rng), "tevo"))
+        if ctx.thorough or k % 3 == 1:
+            cb = round(0.7 * c / max(1.0, abs(c)), 6)
+            hrefb = {"kind": "pauli", "n": len(s), "terms": [[s, [cb, 0.0]]]}
+            fams.append(("single-benc:%s" % s, hrefb, [r for r in single_string_reps(s, cb, rng) if r["r"] != "pstring"], "benc"))
+    # ---- sums of strings
+    for n in ((1, 2, 3) if ctx.thorough else (2, 3)):
+        strs = set()
+        while len(strs) < min(3, 4 ** n - 1):
+            s = "".join(rng.choice("IXYZ") for _ in range(n))
+            if set(s) != {"I"}:
+                strs.add(s)
+        terms = [(s, round(rng.uniform(-1, 1), 3)) for s in sorted(strs)]
+        href = {"kind": "pauli", "n": n, "terms": [[s, [c, 0.0]] for s, c in terms]}
+        fams.append(("sum:n=%d" % n, href, pauli_sum_reps(terms, rng), "tevo"))
+        nrm = float(np.linalg.norm(href_matrix(href), 2)) or 1.0
+        tb = [(s, round(0.8 * c / nrm, 6)) for s, c in terms]
+        hrefb = {"kind": "pauli", "n": n, "terms": [[s, [c, 0.0]] for s, c in tb]}
+        fams.append(("sum-benc:n=%d" % n, hrefb, pauli_sum_reps(tb, rng), "benc"))
+    # ---- model Hamiltonians on chains (open, and periodic for n = 3) vs their Pauli / field-operator forms vs hand-built operators
+    for n, pbc in ((2, False), (3, False), (3, True)):
+        J, hh, g = (round(rng.uniform(-1, 1), 3) for _ in range(3))
+        for conv in ("ISING_ZZ", "ISING_XX"):
+            A, B = ("Z", "X") if conv == "ISING_ZZ" else ("X", "Z")
+            terms = [(place(n, [(i, A), (j, A)]), J) for i, j in chain_pairs(n, pbc)]
+            terms += [(place(n, [(i, A)]), hh) for i in range(n)] + [(place(n, [(i, B)]), g) for i in range(n)]
+            href = {"kind": "pauli", "n": n, "terms": [[s, [c, 0.0]] for s, c in terms]}
+            base = {"n": n, "pbc": pbc, "J": J, "h": hh, "g": g, "conv": conv}
+            reps = [dict(base, r="ising"), dict(base, r="ising-pauli")] + pauli_sum_reps(terms, rng)[:3]
+            fams.append(("ising:%s:n=%d:pbc=%s" % (conv, n, pbc), href, reps, "tevo"))
+            if conv == "ISING_ZZ":
+                sc = 0.8 / (float(np.linalg.norm(href_matrix(href), 2)) or 1.0)
+                tb = [(s, c * sc) for s, c in terms]
+                hb = {"kind": "pauli", "n": n, "terms": [[s, [c, 0.0]] for s, c in tb]}
+                bb = dict(base, J=J * sc, h=hh * sc, g=g * sc)
+                fams.append(("ising-benc:n=%d:pbc=%s" % (n, pbc), hb, [dict(bb, r="ising"), dict(bb, r="ising-pauli")] + pauli_sum_reps(tb, rng)[1:3], "benc"))
+        Jv = [round(rng.uniform(-1, 1), 3) for _ in range(3)]
+        hv = [round(rng.uniform(-1, 1), 3) for _ in range(3)]
+        terms = []
+        for k, ch in enumerate("XYZ"):
+            terms += [(place(n, [(i, ch), (j, ch)]), Jv[k]) for i, j in chain_pairs(n, pbc)]
+            terms += [(place(n, [(i, ch)]), hv[k]) for i in range(n)]
+        href = {"kind": "pauli", "n": n, "terms": [[s, [c, 0.0]] for s, c in terms]}
+        base = {"n": n, "pbc": pbc, "J": Jv, "h": hv}
+        fams.append(("heis:n=%d:pbc=%s" % (n, pbc), href, [dict(base, r="heis"), dict(base, r="heis-pauli")] + pauli_sum_reps(terms, rng)[:3], "tevo"))
+    # ---- quadratic fermionic operators sum c_ij a^dag_i a_j, c Hermitian
+    for L in (1, 2, 3):
+        a = np.array([[complex(round(rng.uniform(-1, 1), 3), round(rng.uniform(-1, 1), 3)) for _ in range(L)] for _ in range(L)])
+        c = (a + a.conj().T) / 2
+        for scale, gk in ((1.0, "tevo"), (0.3, "benc")):
+            cs = c * scale
+            href = {"kind": "fermi", "fterms": C10.desc_terms(L, [([1, 0], cs)])}
+            up, lo = np.triu(cs), np.tril(cs, -1)
+            reps = [{"r": "field", "fterms": C10.desc_terms(L, [([1, 0], cs)])},
+                    {"r": "field", "fterms": C10.desc_terms(L, [([1, 0], 0.25 * cs), ([1, 0], 0.75 * cs)])},
+                    {"r": "field", "fterms": C10.desc_terms(L, [([1, 0], up), ([1, 0], lo)])},               # non-Hermitian halves
+                    {"r": "field", "fterms": C10.desc_terms(L, [([1, 0], up), ([1, 0], lo)]), "how": "sum"},
+                    {"r": "field", "fterms": C10.desc_terms(L, [([1, 0], np.triu(cs, 1) + np.diag(np.diag(cs)) / 2)]), "how": "plus-adjoint"},
+                    # anti-normal order: sum c_ij a^dag_i a_j = tr c - sum c_ij a_j a^dag_i
+                    {"r": "field", "fterms": C10.desc_terms(L, [([0, 1], -cs.T), ([], np.array(np.trace(cs)))])},
+                    {"r": "field", "fterms": C10.desc_terms(L, [([1, 0], cs + np.eye(L)), ([1, 0], -np.eye(L))])},   # cancelling part
+                    {"r": "mol", "n": L, "c": 0.0, "tkin": [[_wsplit(v) for v in row] for row in cs], "vint": [0.0] * L ** 4},
+                    {"r": "mol", "n": L, "c": 0.0, "tkin": [[_wsplit(v) for v in row] for row in cs], "vint": [0.0] * L ** 4, "herm": False},
+                    {"r": "mol-field", "n": L, "c": 0.0, "tkin": [[_wsplit(v) for v in row] for row in cs], "vint": [0.0] * L ** 4}]
+            fams.append(("fermi-quadratic:L=%d:%s" % (L, gk), href, reps, gk))
+    # ---- Fermi-Hubbard (spinless chain; spinful on a 2-layer chain) and a molecular Hamiltonian with interaction
+    for n, spin, pbc in ((2, False, False), (3, False, False), (3, False, True), (2, True, False)):
+        t, u = round(rng.uniform(-1, 1), 3), round(rng.uniform(-1, 1), 3)
+        Ls = 2 * n if spin else n
+        adj = np.zeros((n, n))
+        for i, j in chain_pairs(n, pbc):
+            adj[i, j] = adj[j, i] = 1
+        if spin:
+            kin = -t * np.kron(np.eye(2), adj)
+            pairs = [(i, i + n) for i in range(n)]
+        else:
+            kin = -t * adj
+            pairs = chain_pairs(n, pbc)
+        inter = np.zeros((Ls,) * 4)
+        for i, j in pairs:
+            inter[i, i, j, j] = u
+        href = {"kind": "fermi", "fterms": C10.desc_terms(Ls, [([1, 0], kin), ([1, 0, 1, 0], inter)])}
+        base = {"n": n, "pbc": pbc, "spin": spin, "t": t, "u": u}
+        reps = [dict(base, r="fh"), dict(base, r="fh-field"),
+                {"r": "field", "fterms": C10.desc_terms(Ls, [([1, 0], np.triu(kin)), ([1, 0, 1, 0], inter), ([1, 0], np.tril(kin, -1))])}]
+        fams.append(("fermi-hubbard:n=%d:spin=%s:pbc=%s" % (n, spin, pbc), href, reps, "tevo"))
+    n = 2
+    a = np.array([[complex(round(rng.uniform(-1, 1), 3), 0) for _ in range(n)] for _ in range(n)])
+    tk = (a + a.T) / 2
+    v = np.array([round(rng.uniform(-1, 1), 3) for _ in range(n ** 4)]).reshape((n,) * 4)
+    v = v + v.transpose(2, 3, 0, 1)                      # <ij|kl> = <kl|ij>* (real)
+    cc = round(rng.uniform(-1, 1), 3)
+    # H = c + sum t_ij a+_i a_j + 1/2 sum v_ijkl a+_i a+_j a_l a_k
+    vt = np.zeros_like(v)
+    for i, j, k, l in itertools.product(range(n), repeat=4):
+        vt[i, j, l, k] = 0.5 * v[i, j, k, l]
+    href = {"kind": "fermi", "fterms": C10.desc_terms(n, [([], np.array(cc)), ([1, 0], tk), ([1, 1, 0, 0], vt)])}
+    base = {"n": n, "c": cc, "tkin": [[_wsplit(x) for x in row] for row in tk], "vint": [float(x) for x in v.reshape(-1)]}
+    fams.append(("molecular:n=2", href, [dict(base, r="mol"), dict(base, r="mol-field"), dict(base, r="mol", herm=False)], "tevo"))
+    return fams
+
+
+def generator_checks(ctx, pid):
+    """every family x every representation x (time evolution at the time grid | the three block encodings) x wrappers"""
+    rng = ctx.rng
+    ctx.rules.append(
+        "generators (C01/C02/C03/C16): one Hermitian operator H in MANY representations - PauliString (q = 0, 2); WeightedPauliString with "
+        "q = 0..3 and the compensating real / imaginary weight (from_string, (z,x,q) constructor incl. q >= 4, products through __matmul__), "
+        "weights of type int / float / complex / numpy scalar / negative-zero imaginary part; PauliOperator listing H once, split, with "
+        "mixed even/odd-q halves, merged by add_pauli_string, padded with zero-weight and cancelling strings, reordered; Ising (both "
+        "conventions) / Heisenberg Hamiltonians on open and periodic chains vs as_pauli_operator() vs hand-built operators; quadratic "
+        "FieldOperators as one term, split, non-Hermitian halves, __add__, A + A.adjoint(), anti-normal order + constant, cancelling parts; "
+        "Molecular (HERMITIAN flag or none) / Fermi-Hubbard (spinless, spinful) Hamiltonians vs as_field_operator(); TimeEvolutionGate at "
+        "t in {0.3, -1.1, 0, pi, 25, 2 (int), 1e-9} and BlockEncodingGate (Wx, Wxi, R; norm < 1), bare / controlled on 1 and on 0 / "
+        "multiplexed with the inverse / inverse(); oracle per property against exp(-itH) resp. the block matrix built with eigh / sqrtm "
+        "from the numpy definition of H (kron of Pauli matrices, Jordan-Wigner ladder products). non-trivial = representation other than "
+        "the plain one")
+    nrep = 0
+    for nfam, (name, href, reps, gk) in enumerate(generator_families(ctx)):
+        ctx.count("generator_families")
+        seen = set()
+        for k, rep in enumerate(reps):
+            # quick tier: the two leading families (odd-q strings with imaginary weights, as PauliString.__matmul__ makes them) in
+            # full; of the other families the plain representation and a rotating third of the others
+            full = ctx.thorough or nfam < 2 or len(reps) <= 6
+            if not (full or k == 0 or k % 3 == nfam % 3):
+                continue
+            if gk == "tevo":
+                # every representation sees two times (the plain one: all); together a family sees the whole grid
+                ts = GEN_TIMES if (ctx.thorough or k == 0) else [GEN_TIMES[(nrep + j) % len(GEN_TIMES)] for j in (0, 3)]
+                gates = [{"k": "tevo", "t": t} for t in ts]
+            else:
+                ms = ("Wx", "Wxi", "R") if (ctx.thorough or k == 0) else (("Wx", "Wxi", "R")[nrep % 3],)
+                gates = [{"k": "benc", "method": m} for m in ms]
+            nrep += 1
+            if not ctx.thorough:
+                # wrappers (controlled / multiplexed / inverse) around the first gate of every representation only
+                gates = [dict(g, wrap=("some" if j == 0 else False)) for j, g in enumerate(gates)]
+            inp = {"comp": True, "what": "generator-rep", "family": name, "rep": rep, "href": href, "gates": gates}
+            cls = check_generator_rep(ctx, pid, inp)
+            if cls is not None and k > 0:
+                ctx.nontriv(("generator-rep", name, repr(rep)[:1500]))
+            if cls is not None and (cls, gk) not in seen and len(seen) < 2:
+                seen.add((cls, gk))
+                ctx.sample({"generator_family": name, "class": cls, "rep": rep if len(repr(rep)) < 400 else "(large)", "gates": gk}, cap=9)
+
+
+# =============================================================================== array layout / dtype of user-supplied data
+def _as_layout(M, how):
+    """the same matrix / vector handed over in another container, dtype or memory layout"""
+    M = np.asarray(M)
+    if how == "list":
+        return M.tolist()
+    if how == "fortran":
+        return np.asfortranarray(M)
+    if how == "strided":                       # every second row / column of a larger array with junk in between
+        big = np.full(tuple(2 * d for d in M.shape), 7.5, dtype=M.dtype)
+        big[(slice(None, None, 2),) * M.ndim] = M
+        return big[(slice(None, None, 2),) * M.ndim]
+    if how == "reversed":                      # negative strides
+        return np.ascontiguousarray(M[(slice(None, None, -1),) * M.ndim])[(slice(None, None, -1),) * M.ndim]
+    if how == "real":
+        return np.ascontiguousarray(M.real.astype(float))
+    if how == "int":
+        return np.ascontiguousarray(np.round(M.real).astype(int))
+    if how == "tuple":
+        return tuple(tuple(r) for r in M.tolist()) if M.ndim == 2 else tuple(M.tolist())
+    return np.array(M)
+
+
+def check_layout(ctx, pid, inp):
+    import qib
+    how = inp["as"]
+    try:
+        if inp["gate"] == "general":
+            M = np.array([[complex(a, b) for a, b in row] for row in inp["mat"]])
+            g = qib.GeneralGate(_as_layout(M, how), inp["n"])
+            want = M
+        else:
+            v = np.array(inp["vec"], dtype=float)
+            g = qib.PrepareGate(_as_layout(v, how), inp["n"], bool(inp.get("tr")))
+            want = None
+        U = dense(g.as_matrix())
+        C = dense(qib.ControlledGate(g, 1).as_matrix())
+    except Exception as e:
+        ctx.fail("layout:%s:raises" % inp["gate"], inp, "a gate and its matrix", repr(e)[:200])
+        return
+    N = U.shape[0]
+    tag = inp["gate"]
+    if pid == "C01":
+        for nm, A, nw in (("bare", U, g.num_wires), ("controlled", C, g.num_wires + 1)):
+            if A.shape != (2 ** nw,) * 2 or maxerr(A @ A.conj().T, np.eye(A.shape[0])) > TOL:
+                ctx.fail("layout:%s:not-unitary" % tag, dict(inp, object=nm), "unitary of size 2^num_wires", A.shape)
+    if pid == "C02":
+        if want is not None and maxerr(U, want) > TOL:
+            ctx.fail("layout:general:matrix-differs-from-the-given-one", inp, "the matrix handed to the constructor", maxerr(U, want))
+        if want is None:
+            v = np.array(inp["vec"], dtype=float)
+            v = v / np.sum(np.abs(v))
+            x = np.sign(v) * np.sqrt(np.abs(v))
+            col = U[0, :] if inp.get("tr") else U[:, 0]
+            if maxerr(col, x) > TOL:
+                ctx.fail("layout:prep:first-column-not-sign-sqrt", inp, "sign(v) sqrt|v|", maxerr(col, x))
+        if maxerr(C[N:, N:], U) > TOL or maxerr(C[:N, :N], np.eye(N)) > TOL:
+            ctx.fail("layout:%s:controlled-differs" % tag, inp, "diag(1, U)", maxerr(C[N:, N:], U))
+    if pid == "C03":
+        try:
+            Ui = dense(g.inverse().as_matrix())
+            if maxerr(Ui @ U, np.eye(N)) > TOL:
+                ctx.fail("layout:%s:inverse-does-not-invert" % tag, inp, "inverse() * gate = 1", maxerr(Ui @ U, np.eye(N)))
+        except Exception as e:
+            ctx.fail("layout:%s:inverse-raises" % tag, inp, "a gate", repr(e)[:200])
+    if pid == "C16":
+        claim = bool(g.is_hermitian())
+        if claim and maxerr(U, U.conj().T) > TOL:
+            ctx.fail("layout:%s:claims-hermitian-but-is-not" % tag, inp, "U = U^dagger", maxerr(U, U.conj().T))
+        if tag == "general" and not claim and maxerr(U, U.conj().T) < 1e-12:
+            ctx.fail("layout:general:hermitian-not-reported", inp, True, False)
+
+
+def layout_inputs(ctx):
+    r = 1 / math.sqrt(2)
+    mats = [(1, [[0, 1], [1, 0]], ("int", "real")), (1, [[r, r], [r, -r]], ("real",)), (1, [[1, 0], [0, 1j]], ()),
+            (1, [[0, -1j], [1j, 0]], ()),
+            (2, np.array([[0, 0, 1j, 0], [1, 0, 0, 0], [0, 0, 0, -1], [0, 1, 0, 0]]), ()),
+            (2, np.array([[complex(a, b) for a, b in row] for row in random_unitary(ctx.rng, 2)]), ())]
+    out = []
+    for n, M, extra in mats:
+        M = np.asarray(M, dtype=complex)
+        for how in ("array", "list", "tuple", "fortran", "strided", "reversed") + tuple(extra):
+            out.append({"comp": True, "what": "layout", "gate": "general", "n": n, "as": how,
+                        "mat": [[[float(c.real), float(c.imag)] for c in row] for row in M]})
+    for n, v in ((1, [0.25, 0.75]), (2, [0.5, -0.25, 0.0, 0.25]), (2, [3.0, -1.0, 2.0, 2.0]), (1, [1.0, 0.0])):
+        for k, how in enumerate(("array", "list", "tuple", "strided", "reversed")):
+            out.append({"comp": True, "what": "layout", "gate": "prep", "n": n, "vec": v, "as": how, "tr": k % 2 == 1})
+    return out
+
+
+def layout_checks(ctx, pid):
+    ctx.rules.append("layout: GeneralGate / PrepareGate fed the same data as nested list / tuple / C- and Fortran-ordered / strided / "
+                     "negative-stride arrays of complex, real and integer dtype; bare and controlled")
+    for inp in layout_inputs(ctx):
+        ctx.count("layout_" + inp["gate"])
+        check_layout(ctx, pid, inp)
+        if inp["as"] != "array":
+            ctx.nontriv(("layout", inp["gate"], inp["as"], repr(inp.get("mat", inp.get("vec")))[:300]))
 
 
 # =============================================================================== C03, circuit level
@@ -1399,6 +1977,10 @@ def replay(ctx, pid, data):
         check_history(ctx, pid, inp)
     elif inp["what"] == "wide-control":
         check_wide_control(ctx, inp)
+    elif inp["what"] == "layout":
+        check_layout(ctx, pid, inp)
+    elif inp["what"] == "generator-rep":
+        check_generator_rep(ctx, pid, dict(inp, gates=[inp["gate"]] if "gate" in inp else inp["gates"]))
     elif inp["what"] == "circuit-history":
         check_circuit_history(ctx, inp)
     elif inp["what"] == "general":
